@@ -161,9 +161,9 @@ Lemma brute_small_exact_l : forall (xs : list (Z * option Z)) k,
      exists rest', filter P xs = filter P r ++ rest').
 Proof. intros xs k. exact (small_exact lt_of leb_of_ok xs k). Qed.
 
-(** HEAD, finding C18-K2: one NaN distance and the exact search returns a vector although a
-    strictly nearer one is held *)
-Lemma brute_nan_refuted_l : exists (xs : list (Z * option Z)) k i d j e,
+(** before c04d862 (finding C18-K2, repaired; [lt_pc] = the old comparator): one NaN distance and the
+    exact search returned a vector although a strictly nearer one was held *)
+Lemma brute_nan_pre_refuted_l : exists (xs : list (Z * option Z)) k i d j e,
   In (i, Some d) (brute_small lt_pc xs k) /\ In (j, Some e) xs /\
   ~ In j (map fst (brute_small lt_pc xs k)) /\ e < d.
 Proof.
@@ -218,30 +218,28 @@ Section QuantizedProofs.
     - intros i d Hi. apply takez_In in Hi. apply (Permutation_in _ Hp) in Hi. apply rescored_in. exact Hi.
   Qed.
 
-  (** rescoring on: a result (no panic) is sound for EVERY state — liveness comes from the
+  (** rescoring on: the result is sound for EVERY state and every k — liveness comes from the
       [hnsw.get(id)] filter of rescore_candidates, distances are recomputed *)
-  Lemma qsearch_sound_l : forall (s : state V) q k ef mults pre r, pre_ok pre ->
-    qsearch X dist2 s q k ef mults true pre = QOk r ->
+  Lemma qsearch_sound_l : forall (s : state V) q k ef mults pre, pre_ok pre ->
+    let r := qsearch X dist2 s q k ef mults true pre in
     zlen r <= Z.max 0 k /\ NoDup (map fst r) /\
     StronglySorted (fun a b => x_leb X (snd a) (snd b) = true) r /\
     forall i d, In (i, d) r -> exists n, lookup (nodes s) i = Some n /\ d = dist2 q (fst n).
   Proof.
-    intros s q k ef mults pre r Hpre H. unfold qsearch in H.
-    destruct (num_candidates k mults) as [nc|]; [|discriminate]. inversion H; subst r; clear H.
-    destruct (search_sound_l V D X s q nc ef HX) as [_ [Hnd _]].
+    intros s q k ef mults pre Hpre r. unfold r, qsearch.
+    destruct (search_sound_l V D X s q (num_candidates k mults) ef HX) as [_ [Hnd _]].
     destruct (Hpre _ Hnd) as [Hnd' _].
-    destruct (rescore_sound (nodes s) q (pre (xsearch X s q nc ef)) k Hnd') as [H1 [H2 [H3 H4]]].
+    destruct (rescore_sound (nodes s) q (pre (xsearch X s q (num_candidates k mults) ef)) k Hnd') as [H1 [H2 [H3 H4]]].
     split; [exact H1|]. split; [exact H2|]. split; [exact H3|].
     intros i d Hi. destruct (H4 i d Hi) as [_ Hx]. exact Hx.
   Qed.
 
   (** ... and loses nothing: with no pre-ranking it has min(k, number of live candidates) entries *)
-  Lemma qsearch_count_l : forall (s : state V) q k ef mults nc, links_closed s ->
-    num_candidates k mults = Some nc ->
-    exists r, qsearch X dist2 s q k ef mults true pre_none = QOk r /\
-              zlen r = Z.min (Z.max 0 k) (zlen (xsearch X s q nc ef)).
+  Lemma qsearch_count_l : forall (s : state V) q k ef mults, links_closed s ->
+    zlen (qsearch X dist2 s q k ef mults true pre_none)
+    = Z.min (Z.max 0 k) (zlen (xsearch X s q (num_candidates k mults) ef)).
   Proof.
-    intros s q k ef mults nc Hc Hn. unfold qsearch. rewrite Hn. eexists. split; [reflexivity|].
+    intros s q k ef mults Hc. unfold qsearch. set (nc := num_candidates k mults).
     unfold rescore, pre_none. rewrite takez_len. f_equal.
     unfold zlen. rewrite sort_by_len. f_equal.
     assert (G : forall l : list (Z * D), (forall i d, In (i, d) l -> exists n, lookup (nodes s) i = Some n) ->
@@ -254,9 +252,9 @@ Section QuantizedProofs.
 
   (** rescoring off, no pre-ranking (scalar / product / untrained / None): the plain search *)
   Lemma qsearch_plain_l : forall (s : state V) q k ef mults,
-    qsearch X dist2 s q k ef mults false pre_none = QOk (xsearch X s q k ef).
+    qsearch X dist2 s q k ef mults false pre_none = xsearch X s q k ef.
   Proof.
-    intros s q k ef mults. unfold qsearch, pre_none. f_equal.
+    intros s q k ef mults. unfold qsearch, pre_none.
     destruct (search_sound_l V D X s q k ef HX) as [Hl _].
     destruct (Z.leb_spec k 0) as [Hk|Hk].
     - destruct (xsearch X s q k ef) as [|x t] eqn:E; [reflexivity|].
@@ -264,13 +262,34 @@ Section QuantizedProofs.
     - apply takez_all. lia.
   Qed.
 
-  (** the only way to panic: the candidate count overflows *)
-  Lemma qsearch_panic_iff_l : forall (s : state V) q k ef mults resc pre,
-    qsearch X dist2 s q k ef mults resc pre = QPanic <-> resc = true /\ num_candidates k mults = None.
+  (** the code before dc6fd9d: the only way to panic was an overflowing candidate count ... *)
+  Lemma qsearch_pre_panic_iff_l : forall (s : state V) q k ef mults resc pre,
+    qsearch_pre X dist2 s q k ef mults resc pre = QPanic <-> resc = true /\ num_candidates_pre k mults = None.
   Proof.
-    intros s q k ef mults resc pre. unfold qsearch. destruct resc.
-    - destruct (num_candidates k mults); split; intro H; try discriminate; auto. destruct H as [_ H]. discriminate.
+    intros s q k ef mults resc pre. unfold qsearch_pre. destruct resc.
+    - destruct (num_candidates_pre k mults); split; intro H; try discriminate; auto. destruct H as [_ H]. discriminate.
     - split; [discriminate|intros [H _]; discriminate].
+  Qed.
+  (** ... and whenever it did not panic it returned what the repaired code returns *)
+  Lemma num_candidates_pre_some : forall mults k nc, num_candidates_pre k mults = Some nc -> num_candidates k mults = nc.
+  Proof.
+    unfold num_candidates_pre, num_candidates.
+    assert (Hnone : forall mults, fold_left (fun acc m => match acc with Some a => mul_usize_pre a m | None => None end) mults None = None).
+    { induction mults as [|m t IH]; [reflexivity|]. cbn [fold_left]. exact IH. }
+    induction mults as [|m t IH]; intros k nc H; cbn [fold_left] in *.
+    - inversion H. reflexivity.
+    - unfold mul_usize_pre in H at 2. unfold sat_mul_usize at 2.
+      destruct (Z.leb_spec (k * m) usize_max) as [Hle|Hgt].
+      + rewrite Z.min_l by exact Hle. apply IH. exact H.
+      + rewrite Hnone in H. discriminate.
+  Qed.
+  Lemma qsearch_pre_agrees_l : forall (s : state V) q k ef mults resc pre,
+    qsearch_pre X dist2 s q k ef mults resc pre <> QPanic ->
+    qsearch_pre X dist2 s q k ef mults resc pre = QOk (qsearch X dist2 s q k ef mults resc pre).
+  Proof.
+    intros s q k ef mults resc pre H. unfold qsearch_pre, qsearch in *. destruct resc; [|reflexivity].
+    destruct (num_candidates_pre k mults) as [nc|] eqn:E; [|contradiction].
+    rewrite (num_candidates_pre_some mults k nc E). reflexivity.
   Qed.
 End QuantizedProofs.
 
@@ -310,9 +329,21 @@ Proof.
   - intros x Hx. apply H2. rewrite Hrest. rewrite map_app. apply in_or_app. left. exact Hx.
 Qed.
 
-(** HEAD, finding C18-K3: k = usize::MAX, rescore_factor = 2 *)
-Lemma qsearch_overflow_refuted_l : exists (k : Z) (mults : list Z), 0 <= k <= usize_max /\
-  forall V D (X : ext V D) d2 s q ef pre, qsearch X d2 s q k ef mults true pre = QPanic.
+(** the candidate count of the repaired code never shrinks below k (factors >= 1) *)
+Lemma num_candidates_ge_l : forall mults k, 0 <= k <= usize_max -> Forall (fun m => 1 <= m) mults ->
+  k <= num_candidates k mults <= usize_max.
+Proof.
+  unfold num_candidates. induction mults as [|m t IH]; intros k Hk Hf; cbn [fold_left]; [lia|].
+  inversion Hf as [|? ? Hm Hf']; subst.
+  assert (Hs : k <= sat_mul_usize k m <= usize_max).
+  { unfold sat_mul_usize. split; [apply Z.min_glb; nia|apply Z.le_min_r]. }
+  specialize (IH (sat_mul_usize k m)). assert (0 <= sat_mul_usize k m <= usize_max) by lia.
+  specialize (IH H Hf'). lia.
+Qed.
+
+(** before dc6fd9d (finding C18-K3, repaired): k = usize::MAX, rescore_factor = 2 panicked *)
+Lemma qsearch_overflow_pre_refuted_l : exists (k : Z) (mults : list Z), 0 <= k <= usize_max /\
+  forall V D (X : ext V D) d2 s q ef pre, qsearch_pre X d2 s q k ef mults true pre = QPanic.
 Proof.
   exists usize_max, [2]. split; [unfold usize_max; lia|]. intros. reflexivity.
 Qed.
